@@ -102,16 +102,16 @@ CLAIMS['C03'] = dict(engine='rtc (E3)', category='exploration',
     technique='self-certifying run-time postconditions (symmetry, point-group invariance, positive semidefiniteness) on both calculators; bounded stand-in with known findings',
     text='Bounded: tensors returned by Interstitial.diffusivity / elastodiffusion and VacancyMediated.Lij over the catalogue with rate ratios up to e^8. Known findings: Lsv/L1vv asymmetric on low-symmetry crystals, Lss with a negative eigenvalue on one 2D cell.',
     note='Tolerances 1e-8 (1e-5 with origin states: integration accuracy).')
-CLAIMS['C04'] = dict(engine='symx-lf (E4b) + rtc (E3)', category='exploration',
-    technique='relational contracts: for the interstitial calculator the real source is executed on symbolic data and shift / prefactor / rate-scaling invariances are decided as exact rational-function identities per enumerated network; relational run-time contracts (energy shifts, joint prefactor scaling, energy/temperature co-scaling, rate scaling; reused and fresh calculators) as bounded stand-in for both calculators',
+CLAIMS['C04'] = dict(engine='pyframe degree typing (E2) + symx-lf (E4b) + rtc (E3)', category='exploration',
+    technique='rate covariance as degree contracts checked statement by statement on the extracted AST of VacancyMediated.Lij and the Interstitial rate functions (every sum, comparison, branch condition and cutoff relates equal rate degrees: all inputs, all crystals); relational contracts: for the interstitial calculator the real source is executed on symbolic data and shift / prefactor / rate-scaling invariances are decided as exact rational-function identities per enumerated network; relational run-time contracts (energy shifts, joint prefactor scaling, energy/temperature co-scaling, rate scaling; reused and fresh calculators) as bounded stand-in for both calculators',
     text='Bounded: the four invariances and rate covariance hold to 1e-7 on every catalogue calculator with seeded data, on a reused calculator and on a fresh one.',
     note='Clause (d) (intra-cell displacements) not covered.')
 CLAIMS['C06'] = dict(engine='rtc (E3)', category='exploration',
     technique='run-time postcondition of Lij under the tracer precondition; bounded stand-in',
     text='Bounded: Lsv = -L0vv, L1vv = 0, 0 <= Lss <= L0vv for seeded non-uniform vacancy data on the catalogue calculators (1e-9 algebraic / 1e-4 with origin states).',
     note='Nthermo 1 (quick).')
-CLAIMS['C08'] = dict(engine='rtc (E3)', category='exploration',
-    technique='run-time postconditions of Lij over a grid of omega2 scales with both forced algorithms; bounded stand-in with known findings',
+CLAIMS['C08'] = dict(engine='pyframe degree typing (E2) + rtc (E3)', category='exploration',
+    technique='degree contract of VacancyMediated.Lij checked on the extracted AST (the test that selects the omega2 algorithm and every cutoff compare quantities of equal rate degree: the selection depends on rate ratios only, for all inputs); run-time postconditions of Lij over a grid of omega2 scales with both forced algorithms as bounded stand-in with known findings',
     text='Bounded: finiteness/symmetry of the default selection, agreement of the two algorithms for scales <= 1e6, smooth approach to the large-rate limit (1e-3). Known findings: drift at 1e15/1e16, blow-up and disagreement on crystals with origin states, disagreement on low-symmetry crystals.',
     note='Scale grid and catalogue are the bound; constants fixed in DESIGN.md.')
 CLAIMS['C11'] = dict(engine='symx-lf (E4b) + rtc (E3)', category='exploration',
